@@ -87,6 +87,7 @@ def fork_run(mod, trace, tier, timeout_s, scratch_root=None):
     {"harness_timeout": True}."""
     if scratch_root is None:
         scratch_root = scratch_base()
+    warm(mod)
     r, w = os.pipe()
     sys.stdout.flush()
     sys.stderr.flush()
@@ -214,8 +215,16 @@ def _worker_loop(mod, tier, master, job_r, res_w, timeout_s, scratch_root):
     out.close()
 
 
+def warm(mod):
+    w = getattr(mod, "warm", None)
+    if w is not None and not getattr(mod, "_warmed", False):
+        w()
+        mod._warmed = True
+
+
 class Pool:
     def __init__(self, mod, tier, master, workers, timeout_s):
+        warm(mod)
         self.mod, self.tier, self.master = mod, tier, master
         self.scratch_root = scratch_base()
         self.job_r, self.job_w = os.pipe()
